@@ -247,9 +247,22 @@ func (u *Unit) callMods(c *ssa.CallCommon, m *modSet, seen map[*ssa.Function]boo
 	}
 }
 
+// restoresGhost: the contract has an unconditional postcondition "$g == old($g)": the callee may change the ghost while it runs
+// but every call returns with the value it started with, so a loop whose body only reaches the ghost through such calls
+// does not modify it (the postcondition is a proved obligation of the callee, or part of an assumed contract).
+func restoresGhost(spec *UnitSpec, g string) bool {
+	want := g + " == old(" + g + ")"
+	for _, c := range spec.Ensures {
+		if strings.TrimSpace(c.Text) == want {
+			return true
+		}
+	}
+	return false
+}
+
 func (u *Unit) specMods(spec *UnitSpec, m *modSet) {
 	for _, it := range spec.Modifies {
-		if strings.HasPrefix(it, "$") {
+		if strings.HasPrefix(it, "$") && !restoresGhost(spec, it) {
 			m.ghosts[it] = true
 		}
 	}
